@@ -211,25 +211,33 @@ def concretize(obj, depth=0):
 
 
 def _concretize(obj, space, depth):
+    import collections.abc as abc
     if depth > 6:
         return '...'
-    if hasattr(type(obj), '__ch_realize__'):
-        if hasattr(obj, 'var'):
-            try:
-                if str(space.solver.check()) == 'sat':
-                    v = _model_value(space, obj)
-                    if v is not None:
-                        space.add(obj.var == v)
-                        return v
-            except Exception:
-                pass
-        return '<symbolic %s>' % type(obj).__name__
-    if isinstance(obj, dict):
-        return dict((_concretize(k, space, depth + 1), _concretize(v, space, depth + 1)) for k, v in obj.items())
-    if isinstance(obj, (list, tuple)):
-        return [_concretize(v, space, depth + 1) for v in obj]
-    if isinstance(obj, (str, int, float, bool, type(None))):
+    if isinstance(obj, (str, int, float, bool, type(None))) and not hasattr(type(obj), '__ch_realize__'):
         return obj
+    if hasattr(obj, 'var') and hasattr(type(obj), '__ch_realize__'):
+        try:
+            if str(space.solver.check()) == 'sat':
+                v = _model_value(space, obj)
+                if v is not None:
+                    space.add(obj.var == v)
+                    return v
+        except Exception:
+            pass
+        return '<symbolic %s>' % type(obj).__name__
+    try:
+        if isinstance(obj, abc.Mapping):
+            return dict((_concretize(k, space, depth + 1), _concretize(v, space, depth + 1))
+                        for k, v in list(obj.items()))
+        if isinstance(obj, (abc.Sequence, abc.Set)) and not isinstance(obj, (str, bytes)):
+            return [_concretize(v, space, depth + 1) for v in list(obj)]
+    except BaseException as e:
+        if not isinstance(e, Exception):
+            return '<unrenderable %s>' % type(obj).__name__
+        return '<unrenderable %s>' % type(obj).__name__
+    if hasattr(type(obj), '__ch_realize__'):
+        return '<symbolic %s>' % type(obj).__name__
     try:
         return repr(obj)[:200]
     except BaseException:
